@@ -144,7 +144,12 @@ PROPS = {
                               "reference checker, and all NameBuilder operation sequences of at most 5 steps over sizes that reach the "
                               "63/254/255 limits (the open finding D5 is not judged) -- run only to find a concrete input for a failed "
                               "Verus obligation"},
-        "kani": [],
+        "kani": [
+            {"group": "g0", "name": "c06_label_octet_display_roundtrip", "kind": "complete", "tier": "quick", "timeout": 400,
+             "what": "'converting a name to presentation text and back yields an equal name', per octet: for every octet as a "
+                     "one-octet label, Display for Label -> the reader's symbol decoder yields the octet back; no unescaped dot "
+                     "(label boundary) and no unescaped character that ends a word (shared with C06)"},
+        ],
         "replays": [
             {"bin": "d32_zonefile_empty_label", "crate": "replay_net", "finding": "D32"},
             {"bin": "d5a_push_at_253", "finding": "D5a"},
